@@ -9,7 +9,7 @@ wt=$(mktemp -d /tmp/covr-sdemo-XXXXXX); rmdir "$wt"
 git -C /repo worktree add -q --detach "$wt" HEAD || exit 2
 [ "$2" = "--without" ] || git -C "$wt" apply "$dir/patch.diff" || { echo "patch does not apply"; git -C /repo worktree remove --force "$wt"; exit 2; }
 cp -r "$dir/demo" "$wt/demo"
-grep -rlE '/tmp/s[abcd]-C[0-9]+' "$wt/demo" | while read f; do sed -i -E "s#/tmp/s[abcd]-C[0-9]+/demo_[AB]#$wt/demo#g; s#/tmp/s[abcd]-C[0-9]+#$wt#g" "$f"; done
+grep -rlE '/tmp/s[a-z]-C[0-9]+' "$wt/demo" | while read f; do sed -i -E "s#/tmp/s[a-z]-C[0-9]+/demo_[AB]#$wt/demo#g; s#/tmp/s[a-z]-C[0-9]+#$wt#g" "$f"; done
 cmd=$(python3 -c "import json;print(json.load(open('$dir/meta.json')).get('demo_cmd','go run .'))")
 (cd "$wt/demo" && timeout 1200 bash -c "$cmd"); code=$?
 echo "seeded demo $id $2: exit=$code"
